@@ -251,7 +251,39 @@ def real_scalars(name):
     for v in (fx, fy):
         if v and v not in out:
             out.append(v)
+    out += [d for d in armour_scalars(n) if d not in out]
     return out
+
+
+def armour_scalars(n):
+    """scalars whose bytes make the base64 body of the PEM forms contain the
+    armour keywords BEGIN / END (one of the three byte alignments puts them on
+    a base64 group boundary in each private-key format; the keyword is placed
+    twice so that a line wrap cannot split both)"""
+    import base64
+    l = (n.bit_length() + 7) // 8
+    kw = base64.b64decode("BEGINEND")            # 6 bytes
+    out = []
+    for shift in (0, 1, 2):
+        body = b"\x11" * shift + kw
+        if l >= 1 + shift + 6 + 3 + 6:
+            body += b"\x22" * 3 + kw
+        body = (b"\x00" + body + b"\x33" * l)[:l]
+        d = int.from_bytes(body, "big")
+        if 1 <= d < n:
+            out.append(d)
+    return out
+
+
+def pem_has_keyword(c, d):
+    blen = (int(c.order).bit_length() + 7) // 8
+    txt = rd.pem(rd.ec_private_key(d.to_bytes(blen, "big"), tuple(c.oid), None),
+                 "EC PRIVATE KEY")
+    if isinstance(txt, bytes):
+        txt = txt.decode()
+    body = "".join(x for x in txt.splitlines() if not x.startswith("-----"))
+    lines = [x for x in txt.splitlines() if not x.startswith("-----")]
+    return any("END" in x or "BEGIN" in x for x in lines)
 
 
 def real_case(name, d):
@@ -269,6 +301,9 @@ def shard_real(arg):
             sh.n += 1
             sh.nt += 1
             sh.hist["real-keys"] += 1
+            from ecdsa import curves as cv
+            if pem_has_keyword(getattr(cv, name), d):
+                sh.hist["real-keys-with-BEGIN/END-inside-the-pem-body"] += 1
             for (cls, exp, got) in real_case(name, d):
                 sh.hist["fail:real:" + cls] += 1
                 sh.violation("real", "real:" + cls, dict(curve=name, d=d),
@@ -455,7 +490,8 @@ def main(ctx):
         "with/without public key, PKCS#8 v0/v1) load to the same values. "
         "Toy curves: all d (largest orders: boundary + strided d); real "
         "curves: 1, 2, n-1, n-2, n/2, pattern, first d with leading-zero "
-        "x(dG) and y(dG). Every key is non-trivial; distinct by "
+        "x(dG) and y(dG), scalars whose PEM body contains the armour "
+        "keywords BEGIN / END (counted). Every key is non-trivial; distinct by "
         "construction.")
     rep.assumptions.append("PKCS#8 version field: the library writes 1; the "
                            "property does not fix it, so the reference writer "
